@@ -245,6 +245,10 @@ func c08GenCases(rng *rand.Rand, tier string) []Case {
 		var used []uint64
 		var sent []string
 		k := 1 + rng.Intn(9)
+		if rng.Intn(60) == 0 { // a long history
+			k = 40 + rng.Intn(60)
+			tagset["long"] = true
+		}
 		nt := false
 		kinds := map[string]bool{}
 		for j := 0; j < k; j++ {
@@ -424,7 +428,7 @@ func c08Exec(ops []string) []string {
 func init() {
 	register(&Prop{
 		ID: "C08",
-		Rule: "a real single Serf node per case (serf.Create with node name and tags, recording memberlist transport), QueryBuffer N ∈ {1,2,3,4,8,512}; 1–9 query messages through NotifyMsg with 0–3 filters each: node lists (containing / not containing / near-misses of the own name, empty list), tag filters (25 patterns incl. invalid ones, exact tag values, missing / empty tags), empty entries, truncated and random bodies, swapped bodies, unknown type bytes; flags from {0,1,2,3,4,5,6,2^32−1,…}; names with and without the _serf_ prefix; exact repeats, same (time,id) with other content, times around the window as in C05. " +
+		Rule: "a real single Serf node per case (serf.Create with node name and tags, recording memberlist transport), QueryBuffer N ∈ {1,2,3,4,8,512}; 1–9 query messages (1 case in 60: 40–100) through NotifyMsg with 0–3 filters each: node lists (containing / not containing / near-misses of the own name, empty list), tag filters (25 patterns incl. invalid ones, exact tag values, missing / empty tags), empty entries, truncated and random bodies, swapped bodies, unknown type bytes; flags from {0,1,2,3,4,5,6,2^32−1,…}; names with and without the _serf_ prefix; exact repeats, same (time,id) with other content, times around the window as in C05. " +
 			"Filter classes come from Go's msgpack decoder and the regex table from Go's regexp.MatchString (both recomputed and compared at execution). Observed: the application channel, ack packets at the transport (decoded), query queue growth, query clock. non-trivial = at least one query carries a filter; distinct = distinct op sequence",
 		Gen:  c08GenCases,
 		Exec: c08Exec,
